@@ -332,7 +332,7 @@ theorem values_send_gw_authorization (up : Bool) (u : Identity) :
     generates for the context user: nothing of `h1` arrives under such a name. -/
 theorem wrap_values (token : Str) (up : Bool) (h1 : Headers) (u : Identity)
     (I1 : ∀ e ∈ h1, canonicalKey e.1 = e.1) (I2 : ∀ e ∈ h1, e.1 ≠ hAuthorization)
-    (I3 : values h1 hImpUser = []) (n : Str) (hn : isIdentityName n = true) :
+    (I3 : hget h1 hImpUser = []) (n : Str) (hn : isIdentityName n = true) :
     values (sendOver up (wrapRequest (if up then h1 else bearerAuth token h1) u)) n =
       values (sendOver up (gatewayHeaders token up u)) n := by
   have hA : values h1 hAuthorization = [] := values_nil_of_forall _ _ I2
@@ -345,13 +345,12 @@ theorem wrap_values (token : Str) (up : Bool) (h1 : Headers) (u : Identity)
   rw [hdelA] at hb
   -- the context user's name is written by the gateway: no early return
   have hu2 : hget (if up then h1 else bearerAuth token h1) hImpUser = [] := by
-    apply get_nil_of_values
     cases up
     · have : values [(hAuthorization, [bearerPrefix ++ token])] hImpUser = [] := by
         apply values_nil_of_forall; intro e he; simp at he; subst he
         show hAuthorization ≠ hImpUser
         decide
-      simp [hb, values_append, I3, this]
+      simpa [hget, hb, values_append, this] using I3
     · simpa using I3
   rw [wrapRequest_eq _ _ hu2, sendOver_append, values_append, send_gwEntries, gatewayHeaders_eq, sendOver_append, values_append]
   -- what is left of the client's headers
@@ -500,7 +499,7 @@ theorem values_send_const (up : Bool) (N : Str) (l : List Str) (n : Str) :
     what arrives is the context user with every value as the wire carries it and every extra key lower-cased. -/
 theorem decode_wrapped (token : Str) (up : Bool) (h1 : Headers) (u : Identity)
     (I1 : ∀ e ∈ h1, canonicalKey e.1 = e.1) (I2 : ∀ e ∈ h1, e.1 ≠ hAuthorization)
-    (I3 : values h1 hImpUser = []) :
+    (I3 : hget h1 hImpUser = []) :
     let recv := sendOver up (wrapRequest (if up then h1 else bearerAuth token h1) u)
     values recv hImpUser = [carried up u.name] ∧ values recv hImpGroup = u.groups.map (carried up) ∧
     ∀ k, values (decodeExtras recv) k = values (u.extra.map (fun e => (toLower e.1, e.2.map (carried up)))) k := by
@@ -542,7 +541,6 @@ theorem decode_wrapped (token : Str) (up : Bool) (h1 : Headers) (u : Identity)
   · intro k
     have hA : values h1 hAuthorization = [] := values_nil_of_forall _ _ I2
     have hu2 : hget (if up then h1 else bearerAuth token h1) hImpUser = [] := by
-      apply get_nil_of_values
       cases up
       · have hb : bearerAuth token h1 = hdel h1 hAuthorization ++ [(hAuthorization, [bearerPrefix ++ token])] := by
           simp [bearerAuth, get_nil_of_values hA, hset, canonicalKey_hAuthorization]
@@ -550,7 +548,7 @@ theorem decode_wrapped (token : Str) (up : Bool) (h1 : Headers) (u : Identity)
           apply values_nil_of_forall; intro e he; simp at he; subst he
           show hAuthorization ≠ hImpUser
           decide
-        simp [hb, values_append, this, values_del_ne _ _ _ (by decide : hImpUser ≠ hAuthorization), I3]
+        simpa [hget, hb, values_append, this, values_del_ne _ _ _ (by decide : hImpUser ≠ hAuthorization)] using I3
       · simpa using I3
     show values (decodeExtras (sendOver up (wrapRequest _ u))) k = _
     rw [wrapRequest_eq _ _ hu2, sendOver_append, decodeExtras_append]
@@ -573,5 +571,417 @@ theorem decode_wrapped (token : Str) (up : Bool) (h1 : Headers) (u : Identity)
       decide
     rw [h1', h2']
     simp [values_flatMap_singletons]
+
+/-! ## the impersonation filter against the specification on raw header lines -/
+
+/-- the header map the server builds from accepted lines -/
+def parsed (raw : List (Str × Str)) : Headers := raw.map fun l => (canonicalKey l.1, [trimOWS l.2])
+
+def rawValid (raw : List (Str × Str)) : Bool := raw.all (fun l => validName l.1 && validValue l.2)
+
+theorem parse_eq (raw : List (Str × Str)) : parse raw = if rawValid raw then some (parsed raw) else none := rfl
+
+theorem rawValid_cons {l : Str × Str} {raw : List (Str × Str)} (h : rawValid (l :: raw) = true) :
+    l.1.all isTokenByte = true ∧ rawValid raw = true := by
+  simp only [rawValid, List.all_cons, Bool.and_eq_true] at h
+  have h1 := h.1.1
+  simp only [validName, Bool.and_eq_true] at h1
+  exact ⟨h1.2, by simpa [rawValid] using h.2⟩
+
+theorem canonicalKey_eq_const (n K : Str) (hn : n.all isTokenByte = true) (hK : K.all isTokenByte = true)
+    (hKc : canonicalKey K = K) : canonicalKey n = K ↔ toLower n = toLower K := by
+  have := canonicalKey_eq_iff n K hn hK
+  rw [hKc] at this
+  exact this
+
+theorem values_parsed (raw : List (Str × Str)) (hv : rawValid raw = true) (K : Str) (hK : K.all isTokenByte = true)
+    (hKc : canonicalKey K = K) : values (parsed raw) K = clientValues raw (toLower K) := by
+  induction raw with
+  | nil => simp [parsed, values, clientValues]
+  | cons l raw ih =>
+    obtain ⟨hn, hv'⟩ := rawValid_cons hv
+    have ih' := ih hv'
+    simp only [parsed, clientValues] at ih' ⊢
+    by_cases h : canonicalKey l.1 = K
+    · have h' := (canonicalKey_eq_const l.1 K hn hK hKc).1 h
+      simp [values, h, List.filter_cons, h', ih']
+    · have h' : ¬ toLower l.1 = toLower K := fun x => h ((canonicalKey_eq_const l.1 K hn hK hKc).2 x)
+      simp [values, h, List.filter_cons, h', ih']
+
+theorem toLower_append (a b : Str) : toLower (a ++ b) = toLower a ++ toLower b := by simp [toLower]
+
+theorem canonLoop_lowerExtraPrefix (t : Str) :
+    canonLoop true (lImpExtraPrefix ++ t) = hImpExtraPrefix ++ canonLoop true t := rfl
+
+/-- a line's name has the extra prefix after canonicalisation iff it has it up to case -/
+theorem extraPrefix_ci (n : Str) (hn : n.all isTokenByte = true) :
+    hasPrefix (canonicalKey n) hImpExtraPrefix = hasPrefix (toLower n) lImpExtraPrefix := by
+  rw [Bool.eq_iff_iff, hasPrefix_iff, hasPrefix_iff]
+  constructor
+  · rintro ⟨t, ht⟩
+    refine ⟨toLower t, ?_⟩
+    rw [← toLower_canonicalKey, ht, toLower_append]; rfl
+  · rintro ⟨t, ht⟩
+    refine ⟨canonLoop true t, ?_⟩
+    simp only [canonicalKey, hn, if_true]
+    rw [← canonLoop_toLower, ht, canonLoop_lowerExtraPrefix]
+
+theorem extraKey_ci (n : Str) :
+    toLower ((canonicalKey n).drop hImpExtraPrefix.length) = (toLower n).drop lImpExtraPrefix.length := by
+  have : lImpExtraPrefix.length = hImpExtraPrefix.length := by decide
+  rw [this]
+  simp only [toLower, ← List.map_drop]
+  have := toLower_canonicalKey n
+  simp only [toLower] at this
+  rw [List.map_drop, List.map_drop, this]
+
+theorem extraRequests_parsed (raw : List (Str × Str)) (hv : rawValid raw = true) :
+    extraRequests (parsed raw) = (reqExtras raw).flatMap (fun e => e.2.map (ImpReq.extra e.1)) := by
+  induction raw with
+  | nil => simp [parsed, extraRequests, reqExtras]
+  | cons l raw ih =>
+    obtain ⟨hn, hv'⟩ := rawValid_cons hv
+    have ih' := ih hv'
+    simp only [parsed, reqExtras] at ih' ⊢
+    simp only [List.map_cons, extraRequests, extraPrefix_ci l.1 hn, extraKey_ci, List.filterMap_cons]
+    by_cases h : hasPrefix (toLower l.1) lImpExtraPrefix = true
+    · simp [h, ih']
+    · simp [h, ih']
+
+theorem anyExtra_parsed (raw : List (Str × Str)) (hv : rawValid raw = true) :
+    (parsed raw).any (fun e => hasPrefix e.1 hImpExtraPrefix) = !(reqExtras raw).isEmpty := by
+  induction raw with
+  | nil => simp [parsed, reqExtras]
+  | cons l raw ih =>
+    obtain ⟨hn, hv'⟩ := rawValid_cons hv
+    have ih' := ih hv'
+    simp only [parsed, reqExtras] at ih' ⊢
+    simp only [List.map_cons, List.any_cons, extraPrefix_ci l.1 hn, List.filterMap_cons]
+    by_cases h : hasPrefix (toLower l.1) lImpExtraPrefix = true
+    · simp [h]
+    · simp [h, ih']
+
+theorem authorization_not_extra : hasPrefix hAuthorization hImpExtraPrefix = false := by decide
+
+theorem extraRequests_strip (h : Headers) : extraRequests (authnStrip h) = extraRequests h := by
+  induction h with
+  | nil => simp [authnStrip, hdel, extraRequests]
+  | cons e h ih =>
+    obtain ⟨n, vs⟩ := e
+    simp only [authnStrip, hdel] at ih ⊢
+    by_cases hn : n = hAuthorization
+    · subst hn
+      simp [List.filter_cons, extraRequests, authorization_not_extra, ih]
+    · simp [List.filter_cons, hn, extraRequests, ih]
+
+theorem anyExtra_strip (h : Headers) :
+    (authnStrip h).any (fun e => hasPrefix e.1 hImpExtraPrefix) = h.any (fun e => hasPrefix e.1 hImpExtraPrefix) := by
+  induction h with
+  | nil => simp [authnStrip, hdel]
+  | cons e h ih =>
+    obtain ⟨n, vs⟩ := e
+    simp only [authnStrip, hdel] at ih ⊢
+    by_cases hn : n = hAuthorization
+    · subst hn
+      simp [List.filter_cons, authorization_not_extra, ih]
+    · simp [List.filter_cons, hn, ih]
+
+theorem values_strip_user (raw : List (Str × Str)) (hv : rawValid raw = true) :
+    values (authnStrip (parsed raw)) hImpUser = clientValues raw lImpUser := by
+  rw [authnStrip, values_del_ne _ _ _ (by decide), values_parsed raw hv hImpUser (by decide) (by decide)]; rfl
+
+theorem values_strip_group (raw : List (Str × Str)) (hv : rawValid raw = true) :
+    values (authnStrip (parsed raw)) hImpGroup = reqGroups raw := by
+  rw [authnStrip, values_del_ne _ _ _ (by decide), values_parsed raw hv hImpGroup (by decide) (by decide)]; rfl
+
+theorem hget_strip_user (raw : List (Str × Str)) (hv : rawValid raw = true) :
+    hget (authnStrip (parsed raw)) hImpUser = reqUser raw := by
+  simp [hget, values_strip_user raw hv, reqUser]
+
+/-- `buildImpersonationRequests` on what the server parsed = the checks of the specification -/
+theorem build_spec (raw : List (Str × Str)) (hv : rawValid raw = true) :
+    buildImpersonationRequests (authnStrip (parsed raw)) =
+      if malformed raw then none else if impersonationRequested raw then some (checks raw) else some [] := by
+  simp only [buildImpersonationRequests, hget_strip_user raw hv, values_strip_group raw hv, anyExtra_strip,
+    anyExtra_parsed raw hv, extraRequests_strip, extraRequests_parsed raw hv, malformed, impersonationRequested, checks, userCheck]
+  by_cases hu : (reqUser raw).isEmpty = true
+  · by_cases hg : (reqGroups raw).isEmpty = true
+    · by_cases he : (reqExtras raw).isEmpty = true
+      · have h1 : reqGroups raw = [] := by simpa using hg
+        have h2 : reqExtras raw = [] := by simpa using he
+        simp [hu, h1, h2]
+      · simp [hu, hg, he]
+    · simp [hu, hg]
+  · cases hs : splitUsername (reqUser raw) with
+    | none => simp [hu]
+    | some p => obtain ⟨ns, name⟩ := p; simp [hu]
+
+/-! ## the authorisation loop -/
+
+theorem authorizeAll_eq (az : ImpReq → Decision) (gs : Bool) (a : Acc) (reqs : List ImpReq) :
+    authorizeAll az gs a reqs =
+      if reqs.all (fun r => (az r).allowed) then some (reqs.foldl (accStep gs) a) else none := by
+  induction reqs generalizing a with
+  | nil => simp [authorizeAll]
+  | cons r rs ih =>
+    by_cases h : (az r).allowed = true
+    · simp [authorizeAll, h, ih]
+    · simp [authorizeAll, h]
+
+theorem foldl_groups (gs : Bool) (a : Acc) (l : List Str) :
+    (l.map ImpReq.group).foldl (accStep gs) a = { a with groups := a.groups ++ l } := by
+  induction l generalizing a with
+  | nil => simp
+  | cons g l ih => simp [accStep, ih]
+
+theorem foldl_extras (gs : Bool) (a : Acc) (l : List (Str × List Str)) :
+    (l.flatMap (fun e => e.2.map (ImpReq.extra e.1))).foldl (accStep gs) a =
+      { a with userExtra := a.userExtra ++ l.flatMap (fun e => e.2.map (fun v => (e.1, [v]))) } := by
+  induction l generalizing a with
+  | nil => simp
+  | cons e l ih =>
+    obtain ⟨k, vs⟩ := e
+    simp only [List.flatMap_cons, List.foldl_append, ih]
+    have : ∀ (a : Acc), (vs.map (ImpReq.extra k)).foldl (accStep gs) a =
+        { a with userExtra := a.userExtra ++ vs.map (fun v => (k, [v])) } := by
+      induction vs with
+      | nil => intro a; simp
+      | cons v vs ih2 => intro a; simp [accStep, ih2]
+    simp [this]
+
+theorem reqExtras_singletons (raw : List (Str × Str)) :
+    (reqExtras raw).flatMap (fun e => e.2.map (fun v => (e.1, [v]))) = reqExtras raw := by
+  induction raw with
+  | nil => simp [reqExtras]
+  | cons l raw ih =>
+    simp only [reqExtras] at ih ⊢
+    by_cases h : hasPrefix (toLower l.1) lImpExtraPrefix = true
+    · simp [List.filterMap_cons, h, ih]
+    · simp [List.filterMap_cons, h, ih]
+
+/-! ## service account names -/
+
+theorem stripPrefix_eq {s p t : Str} (h : stripPrefix s p = some t) : s = p ++ t := by
+  induction p generalizing s with
+  | nil => cases s <;> simp [stripPrefix] at h <;> simp [h]
+  | cons b p ih =>
+    cases s with
+    | nil => simp [stripPrefix] at h
+    | cons a s =>
+      simp only [stripPrefix] at h
+      by_cases hab : (a == b) = true
+      · simp only [hab, if_true] at h
+        have := ih h
+        simp at hab
+        simp [hab, this]
+      · simp [hab] at h
+
+def joinWith (c : UInt8) : List Str → Str
+  | [] => []
+  | [x] => x
+  | x :: y :: r => x ++ c :: joinWith c (y :: r)
+
+theorem splitOn_ne_nil (c : UInt8) (t : Str) : splitOn c t ≠ [] := by
+  induction t with
+  | nil => simp [splitOn]
+  | cons x xs ih =>
+    by_cases h : (x == c) = true
+    · simp [splitOn, h]
+    · cases hs : splitOn c xs with
+      | nil => exact absurd hs ih
+      | cons p ps => simp [splitOn, h, hs]
+
+theorem joinWith_cons_head (c x : UInt8) (p : Str) (ps : List Str) :
+    joinWith c ((x :: p) :: ps) = x :: joinWith c (p :: ps) := by
+  cases ps <;> simp [joinWith]
+
+theorem joinWith_splitOn (c : UInt8) (t : Str) : joinWith c (splitOn c t) = t := by
+  induction t with
+  | nil => simp [splitOn, joinWith]
+  | cons x xs ih =>
+    by_cases h : (x == c) = true
+    · have hx : x = c := by simpa using h
+      cases hs : splitOn c xs with
+      | nil => exact absurd hs (splitOn_ne_nil c xs)
+      | cons p ps =>
+        rw [hs] at ih
+        simp [splitOn, h, hs, joinWith, ih, hx]
+    · cases hs : splitOn c xs with
+      | nil => exact absurd hs (splitOn_ne_nil c xs)
+      | cons p ps =>
+        rw [hs] at ih
+        simp [splitOn, h, hs, joinWith_cons_head, ih]
+
+/-- `MakeUsername(SplitUsername(u)) = u` -/
+theorem splitUsername_make {u ns name : Str} (h : splitUsername u = some (ns, name)) : makeUsername ns name = u := by
+  simp only [splitUsername] at h
+  cases hp : stripPrefix u saUsernamePrefix with
+  | none => simp [hp] at h
+  | some t =>
+    simp only [hp] at h
+    have hu := stripPrefix_eq hp
+    have hj := joinWith_splitOn 58 t
+    match hs : splitOn 58 t with
+    | [] => simp [hs] at h
+    | [a] => simp [hs] at h
+    | [a, b] =>
+      simp only [hs] at h
+      by_cases hv : (isDNS1123Label a && isDNS1123Subdomain b) = true
+      · simp only [hv, if_true, Option.some.injEq, Prod.mk.injEq] at h
+        obtain ⟨rfl, rfl⟩ := h
+        rw [hs] at hj
+        simp only [joinWith] at hj
+        simp [makeUsername, hu, ← hj]
+      · simp [hv] at h
+    | a :: b :: c :: r => simp [hs] at h
+
+theorem finalGroups_eq_augment (u : Str) (gs : List Str) : finalGroups u gs = augment u gs := by
+  simp only [finalGroups, augment]
+  by_cases hu : u = anonymous
+  · simp only [hu, ne_eq, not_true_eq_false, if_false, if_true]
+    by_cases h : allUnauthenticated ∈ gs
+    · have : gs.any (fun g => g == allUnauthenticated) = true := by
+        simp only [List.any_eq_true, beq_iff_eq]; exact ⟨_, h, rfl⟩
+      simp [this, h]
+    · have : gs.any (fun g => g == allUnauthenticated) = false := by
+        rw [Bool.eq_false_iff]; intro hc
+        simp only [List.any_eq_true, beq_iff_eq] at hc
+        obtain ⟨x, hx, rfl⟩ := hc; exact h hx
+      simp [this, h]
+  · simp only [ne_eq, hu, not_false_eq_true, if_true, if_false]
+    by_cases h : allAuthenticated ∈ gs ∨ allUnauthenticated ∈ gs
+    · have : gs.any (fun g => g == allAuthenticated || g == allUnauthenticated) = true := by
+        simp only [List.any_eq_true, Bool.or_eq_true, beq_iff_eq]
+        rcases h with h | h
+        · exact ⟨_, h, Or.inl rfl⟩
+        · exact ⟨_, h, Or.inr rfl⟩
+      simp [this, h]
+    · have : gs.any (fun g => g == allAuthenticated || g == allUnauthenticated) = false := by
+        rw [Bool.eq_false_iff]; intro hc
+        simp only [List.any_eq_true, Bool.or_eq_true, beq_iff_eq] at hc
+        obtain ⟨x, hx, hx' | hx'⟩ := hc
+        · exact h (Or.inl (hx' ▸ hx))
+        · exact h (Or.inr (hx' ▸ hx))
+      simp [this, h]
+
+/-- the accumulators after all the checks of a request are the requested identity -/
+theorem fold_checks (raw : List (Str × Str)) (a : Acc)
+    (ha : a = (checks raw).foldl (accStep (!(reqGroups raw).isEmpty)) ⟨[], [], []⟩) :
+    (⟨a.username, finalGroups a.username a.groups, a.userExtra⟩ : Identity) = requestedIdentity raw := by
+  simp only [checks, List.foldl_append, foldl_groups, foldl_extras, reqExtras_singletons, List.foldl_cons, List.foldl_nil,
+    userCheck] at ha
+  simp only [requestedIdentity, impliedGroups]
+  cases hs : splitUsername (reqUser raw) with
+  | none =>
+    simp only [hs, accStep] at ha
+    subst ha
+    by_cases hg : (reqGroups raw).isEmpty = true
+    · have : reqGroups raw = [] := by simpa using hg
+      simp [finalGroups_eq_augment, this]
+    · simp [finalGroups_eq_augment, hg]
+  | some p =>
+    obtain ⟨ns, name⟩ := p
+    have hm := splitUsername_make hs
+    simp only [hs, accStep] at ha
+    subst ha
+    by_cases hg : (reqGroups raw).isEmpty = true
+    · have : reqGroups raw = [] := by simpa using hg
+      simp [finalGroups_eq_augment, this, hm, makeGroupNames]
+    · simp [finalGroups_eq_augment, hg, hm]
+
+/-- **The filter against the specification.** -/
+theorem impersonate_spec (raw : List (Str × Str)) (hv : rawValid raw = true) (u : Identity) (az : ImpReq → Decision) :
+    impersonate (authnStrip (parsed raw)) u az =
+      if !impersonationRequested raw then .pass (authnStrip (parsed raw)) u
+      else if malformed raw then .internalError
+      else if allAllowed az raw then .pass (clearImpersonation (authnStrip (parsed raw))) (requestedIdentity raw)
+      else .forbidden := by
+  simp only [impersonate, build_spec raw hv]
+  by_cases hm : malformed raw = true
+  · have hr : impersonationRequested raw = true := by
+      simp only [malformed, Bool.and_eq_true, Bool.or_eq_true] at hm
+      simp only [impersonationRequested, Bool.or_eq_true]
+      rcases hm.2 with h | h
+      · exact Or.inl (Or.inr h)
+      · exact Or.inr h
+    simp [hm, hr]
+  · by_cases hr : impersonationRequested raw = true
+    · have hc : checks raw = userCheck (reqUser raw) :: ((reqGroups raw).map ImpReq.group ++
+          (reqExtras raw).flatMap (fun e => e.2.map (ImpReq.extra e.1))) := by simp [checks]
+      simp only [hm, hr, Bool.false_eq_true, if_false, if_true, Bool.not_true]
+      rw [hc]
+      simp only [← hc, authorizeAll_eq, values_strip_group raw hv, allAllowed]
+      by_cases ha : (checks raw).all (fun r => (az r).allowed) = true
+      · simp only [ha, if_true]
+        rw [fold_checks raw _ rfl]
+      · simp [ha]
+    · simp [hm, hr]
+
+/-! ## the whole path -/
+
+theorem parsed_canonical (raw : List (Str × Str)) : ∀ e ∈ parsed raw, canonicalKey e.1 = e.1 := by
+  intro e he
+  simp only [parsed, List.mem_map] at he
+  obtain ⟨l, _, rfl⟩ := he
+  exact canonicalKey_idem _
+
+theorem clearImpersonation_sub (h : Headers) : ∀ e ∈ clearImpersonation h, e ∈ h := by
+  intro e he
+  simp only [clearImpersonation, hdel, List.mem_filter] at he
+  exact he.1.1.1
+
+theorem clearImpersonation_user (h : Headers) : hget (clearImpersonation h) hImpUser = [] := by
+  apply get_nil_of_values
+  apply values_nil_of_forall
+  intro e he
+  simp only [clearImpersonation, hdel, List.mem_filter] at he
+  simpa using he.1.1.2
+
+/-- Everything that can be said about a forwarded request: the client's lines were accepted, the client was
+    authenticated, the specification says "forward as `ctx`", and what arrives is what `WrapRequest` makes of a header
+    set without `Authorization`, without `Impersonate-User`, with canonical names. -/
+theorem serve_forwarded (token : Str) (raw : List (Str × Str)) (auth : Option Identity) (az : ImpReq → Decision)
+    (up : Bool) (recv : Headers) (ctx : Identity) (h : serve token raw auth az up = .forwarded recv ctx) :
+    ∃ u h1, rawValid raw = true ∧ auth = some u ∧ expected raw u az = .forward ctx ∧
+      (∀ e ∈ h1, canonicalKey e.1 = e.1) ∧ (∀ e ∈ h1, e.1 ≠ hAuthorization) ∧ hget h1 hImpUser = [] ∧
+      recv = sendOver up (wrapRequest (if up then h1 else bearerAuth token h1) ctx) := by
+  simp only [serve, parse_eq] at h
+  by_cases hv : rawValid raw = true
+  · simp only [hv, if_true] at h
+    cases auth with
+    | none => simp at h
+    | some u =>
+      simp only [impersonate_spec raw hv u az] at h
+      have hS1 : ∀ e ∈ authnStrip (parsed raw), canonicalKey e.1 = e.1 := by
+        intro e he; simp only [authnStrip, hdel, List.mem_filter] at he; exact parsed_canonical raw e he.1
+      have hS2 : ∀ e ∈ authnStrip (parsed raw), e.1 ≠ hAuthorization := by
+        intro e he; simp only [authnStrip, hdel, List.mem_filter] at he; simpa using he.2
+      by_cases hr : impersonationRequested raw = true
+      · by_cases hm : malformed raw = true
+        · simp [hr, hm] at h
+        · by_cases ha : allAllowed az raw = true
+          · simp only [hr, hm, ha, Bool.not_true, Bool.false_eq_true, if_false, if_true] at h
+            refine ⟨u, clearImpersonation (authnStrip (parsed raw)), hv, rfl, ?_, ?_, ?_, clearImpersonation_user _, ?_⟩
+            · have : ctx = requestedIdentity raw := by
+                cases up <;> simp only [Bool.false_eq_true, if_false, if_true] at h <;> split at h <;> simp at h <;> exact h.2.symm
+              simp [expected, hr, hm, ha, this]
+            · exact fun e he => hS1 e (clearImpersonation_sub _ e he)
+            · exact fun e he => hS2 e (clearImpersonation_sub _ e he)
+            · cases up <;> simp only [Bool.false_eq_true, if_false, if_true] at h <;> split at h <;> simp at h
+              · rw [← h.1, h.2]; simp
+              · rw [← h.1, h.2]; simp
+          · simp [hr, hm, ha] at h
+      · simp only [hr, Bool.not_false, if_true] at h
+        refine ⟨u, authnStrip (parsed raw), hv, rfl, ?_, hS1, hS2, ?_, ?_⟩
+        · have : ctx = u := by
+            cases up <;> simp only [Bool.false_eq_true, if_false, if_true] at h <;> split at h <;> simp at h <;> exact h.2.symm
+          simp [expected, hr, this]
+        · rw [hget_strip_user raw hv]
+          simp only [impersonationRequested, Bool.or_eq_true, not_or] at hr
+          simpa using hr.1.1
+        · cases up <;> simp only [Bool.false_eq_true, if_false, if_true] at h <;> split at h <;> simp at h
+          · rw [← h.1, h.2]; simp
+          · rw [← h.1, h.2]; simp
+  · simp [hv] at h
 
 end KG.Lemmas.Identity
